@@ -760,6 +760,26 @@ impl World {
                 setr(cb, r, Some(p));
                 vec![got as i64]
             }
+            MOp::AllocW(r, kind, cs, ws) => {
+                // Gc::new of a value that already holds pointers (no barrier involved)
+                let sv: Vec<Option<Any<'gc>>> = cs.iter().map(|c| c.and_then(|x| rg(cb, x))).collect();
+                let wv: Vec<Option<AnyWeak<'gc>>> = ws.iter().map(|c| c.and_then(|x| wrg(cb, x))).collect();
+                if !matches!(kind, Kind::Node | Kind::Lock | Kind::Struct) { return vec![SKIP]; }
+                let book = self.books[ai].as_ref().unwrap();
+                let (uid, id) = (book.uid, book.next_id);
+                let tag = DropTag { uid, id };
+                let mk = alloc_track::mark();
+                let p = match kind {
+                    Kind::Node => Any::Node(Gc::new(mc, RefLock::new(NodeData { tag, strong: sv, weak: wv }))),
+                    Kind::Lock => { std::mem::forget(tag); Any::Lock(Gc::new(mc, Lock::new(sv[0]))) }
+                    _ => Any::Struct(Gc::new(mc, StructData {
+                        tag, lock: Lock::new(sv[0]), once: OnceLock::new(),
+                        vec: RefLock::new(sv[2..].to_vec()), weak: RefLock::new(wv) })),
+                };
+                let got = self.register_alloc(ai, mc, kind, mk, &p);
+                setr(cb, r, Some(p));
+                vec![got as i64]
+            }
             MOp::LoadRoot(r, i) => {
                 let v = match (&cb.root, &cb.root_mut) {
                     (Some(rt), _) => rt.strong.get(i as usize).copied().flatten(),
